@@ -24,6 +24,12 @@ GEN_SPEC = {"imports": ["From God Require Import C19.GenEnv."], "items": [
     {"kind": "calls", "file": _F, "func": "RotateLogger.postRotate", "as": "post_rotate_calls"},
     {"kind": "calls", "file": _F, "func": "RotateLogger.maybeDeleteOutdatedFiles", "as": "delete_calls"},
     {"kind": "calls", "file": _F, "func": "gzipFile", "as": "gzip_calls"},
+    {"kind": "calls", "file": _F, "func": "RotateLogger.init", "as": "init_calls"},
+    {"kind": "chain", "file": "lib/logx/logs.go", "func": "createOutput", "call": "NewSizeLimitRotateRule", "as": "size_rule_args"},
+    {"kind": "chain", "file": "lib/logx/logs.go", "func": "createOutput", "call": "DefaultRotateRule", "as": "daily_rule_args"},
+    {"kind": "chain", "file": "lib/logx/logs.go", "func": "createOutput", "call": "NewLogger", "as": "new_logger_args"},
+    {"kind": "const", "file": "lib/logx/vars.go", "name": "backupFileDelimiter"},
+    {"kind": "const", "file": "lib/logx/vars.go", "name": "accessFilename"},
 ]}
 QUICK_N = 150
 THOROUGH_N = 2000
@@ -82,16 +88,17 @@ def _ts(dt):
     return dt.strftime("%Y-%m-%dT%H:%M:%SZ")
 
 
-def _one(rng, tier):
-    kind = rng.choice(["daily", "size"])
-    fname = rng.choice(FILES)
-    delim = rng.choice(DELIMS)
-    days = rng.choice([-1, 0, 0, 1, 1, 2, 3, 7])
-    gz = rng.random() < 0.5
-    compress = gz if rng.random() < 0.9 else (not gz)
-    maxsize = rng.choice([0, 1, 8, 10, 10, 16, 25, 40]) if kind == "size" else 0
-    maxbackups = rng.choice([-1, 0, 0, 1, 1, 2, 2, 3]) if kind == "size" else 0
-    nw = rng.randint(3, 14)
+def _one(rng, tier, force=None):
+    force = force or {}
+    kind = force.get("kind") or rng.choice(["daily", "size"])
+    fname = force.get("file") or rng.choice(FILES)
+    delim = force.get("delim") or rng.choice(DELIMS)
+    days = force["days"] if "days" in force else rng.choice([-1, 0, 0, 1, 1, 2, 3, 7])
+    gz = force["gzip"] if "gzip" in force else rng.random() < 0.5
+    compress = force["compress"] if "compress" in force else (gz if rng.random() < 0.9 else (not gz))
+    maxsize = force["maxsize"] if "maxsize" in force else (rng.choice([0, 1, 8, 10, 10, 16, 25, 40]) if kind == "size" else 0)
+    maxbackups = force["maxbackups"] if "maxbackups" in force else (rng.choice([-1, 0, 0, 1, 1, 2, 2, 3]) if kind == "size" else 0)
+    nw = force.get("nw") or rng.randint(3, 14)
     start = BASE + datetime.timedelta(days=rng.randint(0, 300))
     events = []
     writes = []
@@ -116,6 +123,8 @@ def _one(rng, tier):
             stamp = _ts(t)
             hi = max(3, int(maxsize * 1.5)) if maxsize > 0 else 12
             ln = 0 if rng.random() < 0.06 else rng.randint(1, hi)
+            if "lens" in force:
+                ln = rng.randint(*force["lens"])
             today = t.date()
         events.append({"w": [i, ln, stamp]})
         writes.append((i, ln, stamp))
@@ -155,7 +164,7 @@ def _one(rng, tier):
                 recs.append([sid, rng.randint(1, 9)])
                 sid += 1
         seeds.append({"name": name, "recs": recs, "gz": 1 if name.endswith(".gz") and rng.random() < 0.95 else 0})
-    if rng.random() < 0.3 and sid < 93:
+    if rng.random() < 0.3 and sid < 93 and not force.get("no_current_seed"):
         seeds.append({"name": fname, "recs": [[sid, rng.randint(1, 12)], [sid + 1, rng.randint(1, 6)]], "gz": 0})
     return {"kind": kind, "file": fname, "delim": delim, "days": days, "gzip": gz, "compress": compress,
             "maxsize": maxsize, "maxbackups": maxbackups, "seeds": seeds, "rot0": rot0, "now0": now0,
@@ -189,8 +198,71 @@ def _front(rng, tier):
     return c
 
 
+def _restart(rng, tier):
+    """two (or three) lives: Close, then a new logger on the same, usually non-empty, current file"""
+    c = _one(rng, tier)
+    widx = [i for i, e in enumerate(c["events"]) if "w" in e]
+    cuts = sorted(set(rng.sample(widx[1:], min(len(widx) - 1, rng.choice([1, 1, 2])))), reverse=True) if len(widx) > 1 else []
+    for i in cuts:
+        nxt = c["events"][i]["w"][2]
+        prev = [e["w"][2] for e in c["events"][:i] if "w" in e][-1]
+        # the new process starts at the clock of the previous record, or (daily) of the next one; under the
+        # size rule init and a rotation in the same second would pick one backup name twice
+        stamp = nxt if c["kind"] == "daily" and rng.random() < 0.5 else prev
+        c["events"].insert(i, {"r": [stamp, stamp, c["endb"]]})
+    return c
+
+
+def _fault(rng, tier):
+    """compression that fails: a directory, or a symlink to /dev/full, sits where <backup>.gz goes"""
+    c = _one(rng, tier, {"gzip": True, "compress": True})
+    stamps = [c["now0"]] + [e["w"][2] for e in c["events"] if "w" in e]
+    stamps = sorted(set(stamps))
+    if c["kind"] == "daily" and len(stamps) > 1:
+        stamps = stamps[:-1]                     # every date but the last names a backup
+    have = {s["name"] for s in c["seeds"]}
+    for st in rng.sample(stamps, min(len(stamps), rng.randint(1, 4))):
+        name = _bname(c["kind"], c["file"], c["delim"], st) + ".gz"
+        if name not in have:
+            c["seeds"].append({"name": name, "recs": [], "gz": 0, "kind": rng.choice(["dir", "devfull"])})
+            have.add(name)
+    return c
+
+
+def _setup(rng, tier):
+    """the configuration path: logx.Config -> newFileWriter -> createOutput; MaxSize in MB, so records are large"""
+    size = rng.random() < 0.8
+    su = {"rotation": "size" if size else "daily", "maxsize": rng.choice([0, 1, 1, 1, 2]) if size else rng.choice([0, 3]),
+          "maxbackups": rng.choice([0, 1, 2, 3, 3]) if size else rng.choice([0, 2]),
+          "keepdays": rng.choice([-1, 0, 0, 1, 2, 3, 7]), "compress": rng.random() < 0.5}
+    if size and su["maxsize"] == su["maxbackups"]:
+        su["maxbackups"] += 2
+    mb = 1 << 20
+    force = {"kind": "size" if size else "daily", "file": "access.log", "delim": "-", "days": max(su["keepdays"], 0),
+             "gzip": su["compress"], "compress": su["compress"], "no_current_seed": True,
+             "maxsize": max(su["maxsize"], 0) * mb if size else 0, "maxbackups": max(su["maxbackups"], 0) if size else 0,
+             "nw": rng.randint(5, 9)}
+    if size:
+        force["lens"] = (150000, 900000 * max(su["maxsize"], 1))
+    c = _one(rng, tier, force)
+    c["setup"] = su
+    return c
+
+
 def generate(rng, tier, n):
-    return [_front(rng, tier) if i % 3 == 2 else _one(rng, tier) for i in range(n)]
+    out = []
+    for i in range(n):
+        if i % 3 == 2:
+            out.append(_front(rng, tier))
+        elif i % 15 == 0:
+            out.append(_setup(rng, tier))
+        elif i % 15 in (3, 6, 9):
+            out.append(_restart(rng, tier))
+        elif i % 15 in (4, 10):
+            out.append(_fault(rng, tier))
+        else:
+            out.append(_one(rng, tier))
+    return out
 
 
 def _writes(case):
@@ -251,8 +323,10 @@ def _nm(s):
     return "(sn %s)" % cstr(s)
 
 
-def _file(name, recs, gz):
+def _file(name, recs, gz, kind=""):
     depth = gz if gz >= 0 else 99
+    if kind:
+        depth = 77 if kind == "dir" else 78
     return cpair(_nm(name), cpair(clist(["mkrec %s %s" % (cnat(r[0]) if r[0] >= 0 else "999%nat", cZ(r[1])) for r in recs]), cnat(depth)))
 
 
@@ -263,10 +337,20 @@ def _cfg(case):
 
 
 def encode(case, obs):
-    seeds = clist([_file(s["name"], s["recs"], s["gz"]) for s in case["seeds"]])
+    seeds = clist([_file(s["name"], s["recs"], s["gz"], s.get("kind", "")) for s in case["seeds"]])
+    setup = "None"
+    cfg = _cfg(case)
+    if case.get("setup"):
+        su = case["setup"]
+        setup = "(Some (mksetup %s %s %s %s %s))" % (cbool(su["rotation"] == "size"), cZ(su["maxsize"]), cZ(su["maxbackups"]),
+                                                    cZ(su["keepdays"]), cbool(su["compress"]))
+        r = obs.get("rule")
+        if r:   # the rule observed on the logger that createOutput built
+            cfg = _cfg({"kind": r["kind"], "file": r["file"], "delim": r["delim"], "days": r["days"], "gzip": r["gzip"],
+                        "compress": r["compress"], "maxsize": r["maxsize"], "maxbackups": r["maxbackups"]})
     if "log" not in obs or "final" not in obs:
         # driver failure: an empty observation falsifies both checkers
-        return "mkcase %s %s %s %s [] [] false" % (_cfg(case), seeds, _nm(case["rot0"]), _nm(case["now0"]))
+        return "mkcase %s %s %s %s [] [] %s false" % (cfg, seeds, _nm(case["rot0"]), _nm(case["now0"]), setup)
     writes = [list(w) for w in _writes(case)]
     front_ok = True
     if case.get("front"):
@@ -276,8 +360,12 @@ def encode(case, obs):
         for a, w in zip(acc, writes):
             w[1] = a[1]
     evs = []
+    restarts = [e["r"] for e in case["events"] if "r" in e]
     for e in obs["log"]:
-        if e.get("d") is not None:
+        if e.get("r"):
+            r = restarts.pop(0)
+            evs.append("XRestart %s %s" % (_nm(r[0]), _nm(r[1])))
+        elif e.get("d") is not None:
             d = e["d"]
             evs.append("XDelete %s %s %s %s %s" % (
                 _nm(d["b0"]), _nm(d["b1"]), clist([_nm(n) for n in d["before"]]),
@@ -287,7 +375,7 @@ def encode(case, obs):
             w = writes[e["w"]]
             evs.append("XWrite (mkrec %s %s) %s" % (cnat(w[0]), cZ(w[1]), _nm(w[2])))
     final = clist([_file(f["name"], f["runs"], f["gz"]) for f in obs["final"]])
-    return "mkcase %s %s %s %s %s %s %s" % (_cfg(case), seeds, _nm(case["rot0"]), _nm(case["now0"]), clist(evs), final, cbool(front_ok))
+    return "mkcase %s %s %s %s %s %s %s %s" % (cfg, seeds, _nm(case["rot0"]), _nm(case["now0"]), clist(evs), final, setup, cbool(front_ok))
 
 
 def _removed(obs):
@@ -314,12 +402,29 @@ def bucket(case, obs):
         out.append("front-burst=%d" % min(6, max([len(e["b"]) for e in case["events"] if "b" in e] + [1])))
     else:
         out.append("direct-write")
+    if case.get("setup"):
+        out.append("config-path:%s" % case["setup"]["rotation"])
+    nr = sum(1 for e in case["events"] if "r" in e)
+    if nr:
+        out.append("lives=%d" % (nr + 1))
+        first = [l for l in obs.get("log", [])]
+        k = next((i for i, l in enumerate(first) if l.get("r")), len(first))
+        out.append("first-life-rotated" if any(l.get("rot") for l in first[:k]) else "first-life-no-rotation")
+    if any(s.get("kind") for s in case["seeds"]):
+        failed = [f["name"] for f in obs.get("final", []) if f["gz"] in (77, 78)]
+        plain = {f["name"] for f in obs.get("final", [])}
+        out.append("gzip-fault:" + ("hit" if any(n[:-3] in plain for n in failed) else "not-hit"))
     chosen = [case["now0"]]
     ws = _writes(case)
+    rs = [e["r"] for e in case["events"] if "r" in e]
+    dup = False
     for l in obs.get("log", []):
-        if l.get("w") is not None and l.get("rot"):
+        if l.get("r") and rs:
+            chosen = chosen[:-1] + [rs.pop(0)[1]]
+        elif l.get("w") is not None and l.get("rot"):
             chosen.append(ws[l["w"]][2])
-    out.append("hyp:distinct-backup-names" if len(set(chosen)) == len(chosen) else "hyp:DUPLICATE-BACKUP-NAME")
+        dup = dup or len(set(chosen)) != len(chosen)
+    out.append("hyp:DUPLICATE-BACKUP-NAME" if dup else "hyp:distinct-backup-names")
     if obs.get("errs"):
         out.append("driver-timeout")
     return out
